@@ -217,7 +217,11 @@ func (s *spec) mint(keys []keyPair) string {
 	k := keys[s.signer]
 	sig := ed25519.Sign(k.priv, []byte(signing))
 	enc := b64.EncodeToString(sig)
-	switch s.sigMode {
+	sigMode := s.sigMode
+	if s.malformed != 0 {
+		sigMode = 0 // a malformed token stays malformed (mode 4 would replace a broken claims segment by a sound one)
+	}
+	switch sigMode {
 	case 1:
 		sig[len(sig)/2] ^= 0x10
 		enc = b64.EncodeToString(sig)
@@ -652,6 +656,32 @@ func editRight(sn *api.VerifC30Snapshot, name string) bool {
 	return contains(sn.EditMetric, name) || anyPrefix(sn.EditPrefix, name) || (sn.EditDefault && !anyPrefix(sn.Protected, name))
 }
 
+// bitRight: does the TOKEN carry a bit with the application prefix that, by the property's wording, lets `name` be
+// viewed (kind "view") or edited (kind "edit")? Independent of the code's bit switch; '@' and ':' are identified
+// everywhere (laxer than the code's "first '@' becomes ':'"), so this can only accept more than the code does.
+func bitRight(bits []string, app, kind, name string, prot []string) bool {
+	norm := func(x string) string { return strings.ReplaceAll(x, "@", ":") }
+	for _, b := range bits {
+		r, ok := strings.CutPrefix(b, app+":")
+		if !ok {
+			continue
+		}
+		if r == kind+"_default" && !anyPrefix(prot, name) {
+			return true
+		}
+		if x, ok := strings.CutPrefix(r, kind+"_metric."); ok && norm(x) == norm(name) {
+			return true
+		}
+		if x, ok := strings.CutPrefix(r, kind+"_prefix."); ok && strings.HasPrefix(norm(name), norm(x)) {
+			return true
+		}
+		if x, ok := strings.CutPrefix(r, kind+"_namespace."); ok && strings.HasPrefix(norm(name), norm(x)+":") {
+			return true
+		}
+	}
+	return false
+}
+
 func editClass(err error) string {
 	if err == nil {
 		return "ok"
@@ -836,7 +866,7 @@ func runCase(i int, r *verifx.Rng) {
 
 	// ---- direct oracle, acceptance (the property's "accepted only if …"); not applicable to local/insecure mode
 	if !local && !insecure {
-		w := time.Duration(vkuth.JWTTimeWindow).Milliseconds()
+		const w = 5000 // the property's tolerance in ms — deliberately NOT vkuth.JWTTimeWindow
 		bad := func(sig, what string) { h.Viol("accept-"+sig, "token accepted although %s; token=%s now=%d", what, token, now) }
 		kidCfg := s.kid.k == 2 && cfgKeys[s.kid.s] != nil
 		switch {
@@ -924,6 +954,9 @@ func runCase(i int, r *verifx.Rng) {
 			if !sn.Admin && isRemote(name) {
 				h.Viol("view-remote-config", "non-admin may view remote-config metric %q; %s", name, snapTok(&sn))
 			}
+			if !local && !insecure && !bitRight(s.bits, app, "view", name, prot) {
+				h.Viol("view-without-bit", "%q viewable but the token has no matching view bit; bits=%q prot=%q", name, s.bits, prot)
+			}
 			if !viewRight(&sn, name) {
 				h.Viol("view-without-right", "%q viewable without a metric, prefix, namespace or default right; %s prot=%q", name, snapTok(&sn), sn.Protected)
 			}
@@ -937,6 +970,9 @@ func runCase(i int, r *verifx.Rng) {
 		h.Obs("chg %d", b2i(got))
 		if got && !sn.Admin && (isRemote(a) || isRemote(b) || !editRight(&sn, a) || !editRight(&sn, b)) {
 			h.Viol("change-without-right", "non-admin may change %q -> %q; %s prot=%q", a, b, snapTok(&sn), sn.Protected)
+		}
+		if got && !local && !insecure && !contains(s.bits, app+":admin") && (!bitRight(s.bits, app, "edit", a, prot) || !bitRight(s.bits, app, "edit", b, prot)) {
+			h.Viol("change-without-bit", "%q -> %q may be changed but the token has no admin bit and no matching edit bits for both; bits=%q prot=%q", a, b, s.bits, prot)
 		}
 	}
 	// names for edits: prefer names the token can edit so that the field checks are reached
@@ -979,6 +1015,10 @@ func runCase(i int, r *verifx.Rng) {
 		h.Stat("edit."+cls, 1)
 		if cls != "forbidden" && !sn.Admin {
 			interesting = true
+		}
+		if cls == "ok" && !local && !insecure && !contains(s.bits, app+":admin") &&
+			(!bitRight(s.bits, app, "edit", old.name, prot) || !bitRight(s.bits, app, "edit", nw.name, prot)) {
+			h.Viol("edit-without-bit", "edit %q -> %q accepted but the token has no admin bit and no matching edit bits for both; bits=%q prot=%q", old.name, nw.name, s.bits, prot)
 		}
 		if cls == "ok" && !sn.Admin {
 			v := func(sig, what string) {
